@@ -243,8 +243,13 @@ type CaseC15 struct {
 
 var fromStruct = [][]string{nil, {"A"}, {"B"}, {"In"}, {"In", "S"}, {"In", "N"}, {"PIn"}, {"PIn", "S"}, {"M"}, {"M", "k"}, {"M", "j"}, {"M", "k", "j"}, {"M", "k", "S"}, {"MS"}, {"MS", "k"}, {"Any"}, {"Any", "S"}, {"Any", "k"}, {"L"}, {"Zz"}, {"hidden"}}
 var fromMap = [][]string{nil, {"A"}, {"B"}, {"In"}, {"In", "S"}, {"PIn", "S"}, {"M"}, {"M", "k"}, {"Any"}, {"Any", "S"}, {"nest"}, {"nest", "j"}, {"nest", "k", "j"}, {"zz"}}
-var toStruct = [][]string{nil, {"X"}, {"Y"}, {"In"}, {"In", "S"}, {"In", "N"}, {"In", "Any"}, {"In", "Any", "k"}, {"PIn"}, {"PIn", "S"}, {"M"}, {"M", "k"}, {"M", "k", "j"}, {"MS"}, {"MS", "k"}, {"Hole"}, {"Hole", "k"}, {"Hole", "k", "j"}, {"L"}, {"MI", "k"}, {"MI", "k", "S"}, {"MP", "k"}, {"MP", "k", "S"}, {"Qq"}, {"secret"}}
-var toMap = [][]string{nil, {"x"}, {"x", "y"}, {"x", "y", "z"}, {"w"}, {"v", "u"}}
+var toStruct = [][]string{nil, {"X"}, {"Y"}, {"In"}, {"In", "S"}, {"In", "N"}, {"In", "Any"}, {"In", "Any", "k"}, {"PIn"}, {"PIn", "S"}, {"M"}, {"M", "k"}, {"M", "k", "j"}, {"MS"}, {"MS", "k"}, {"Hole"}, {"Hole", "k"}, {"Hole", "k", "j"}, {"Hole", "k", "i"}, {"Hole", "h", "j"}, {"In", "Any", "k", "j"}, {"In", "Any", "h", "j"}, {"L"}, {"MI", "k"}, {"MI", "k", "S"}, {"MP", "k"}, {"MP", "k", "S"}, {"Qq"}, {"secret"}}
+var toMap = [][]string{nil, {"x"}, {"x", "y"}, {"x", "y", "z"}, {"x", "q", "z"}, {"x", "y", "r"}, {"w"}, {"v", "u"}}
+
+// siblings: pairs of target paths that pass through the same interface-typed position and go on for at least
+// two more elements without overlapping (two mappings must then build one shared map between them)
+var siblingsStruct = [][2][]string{{{"Hole", "k", "j"}, {"Hole", "h", "j"}}, {{"Hole", "k", "j"}, {"Hole", "k", "i"}}, {{"In", "Any", "k", "j"}, {"In", "Any", "h", "j"}}}
+var siblingsMap = [][2][]string{{{"x", "y", "z"}, {"x", "q", "z"}}, {{"x", "y", "z"}, {"x", "y", "r"}}}
 
 func genC15(t *rapid.T) CaseC15 {
 	c := CaseC15{}
@@ -285,6 +290,21 @@ func genC15(t *rapid.T) CaseC15 {
 			m.To = tos[1]
 		}
 		c.Maps = append(c.Maps, m)
+	}
+	if rapid.IntRange(0, 5).Draw(t, "siblings") == 0 {
+		sib := siblingsStruct
+		if c.DstT == "map" {
+			sib = siblingsMap
+		}
+		pair := sib[rapid.IntRange(0, len(sib)-1).Draw(t, "sibPair")]
+		fs := froms
+		leaf := func(l string) []string {
+			// a string-valued source
+			cands := [][]string{{"A"}, {"In", "S"}}
+			_ = fs
+			return cands[rapid.IntRange(0, len(cands)-1).Draw(t, l)]
+		}
+		c.Maps = []Map15{{Pred: "start", From: leaf("sibFrom1"), To: pair[0]}, {Pred: "start", From: leaf("sibFrom2"), To: pair[1]}}
 	}
 	c.Split = rapid.Bool().Draw(t, "split")
 	return c
